@@ -61,7 +61,7 @@ MANIFEST = dict(
               "matching of stored values",
 )
 FLOORS = {"C08.1": 30, "C08.3": 6, "C08.4": 3, "C08.5": 4, "C08.6": 2,
-          "C08.7": 4, "C08.8": 8}
+          "C08.7": 4, "C08.8": 8, "C08.9": 6}
 
 PATH = "evo.core.trajectory.PosePath3D"
 TRAJ = "evo.core.trajectory.PoseTrajectory3D"
@@ -232,15 +232,34 @@ def check(ctx):
                     continue
                 v = e.data["value"]
                 ok = _indexed_by(v, selfp, e.data["name"], ids)
-                ctx.ob("C08.3", e, ok,
+                ctx.ob("C08.3", e, ok is True,
                        f"{cq}.reduce_to_ids[{state_name(st)}]: "
                        f"{e.data['name']} := own {e.data['name']} selected "
-                       f"by `ids`" if ok else
-                       f"{cq}.reduce_to_ids: {e.data['name']} is not the "
-                       f"selection of itself by the `ids` argument: "
-                       f"{fmt(v)}",
+                       f"by `ids`" if ok is True else
+                       (f"{cq}.reduce_to_ids: `ids` is converted with "
+                        f"np.asarray / np.array without an integer dtype: "
+                        f"an empty selection becomes a float64 array and "
+                        f"indexing {e.data['name']} with it raises "
+                        f"IndexError (e.g. association with no matches no "
+                        f"longer reaches its SyncException)"
+                        if ok == "float" else
+                        f"{cq}.reduce_to_ids: {e.data['name']} is not the "
+                        f"selection of itself by the `ids` argument: "
+                        f"{fmt(v)}"),
                        key=f"C08.3:{cq}:{e.data['name']}:selection",
                        value=fmt(v))
+                # ... on every path on which the view exists
+                always = tm.fold(e.live, lambda t: None) is True
+                ctx.ob("C08.3", e, always,
+                       f"{cq}.reduce_to_ids[{state_name(st)}]: "
+                       f"{e.data['name']} is re-selected unconditionally"
+                       if always else
+                       f"{cq}.reduce_to_ids: the selection of "
+                       f"{e.data['name']} is skipped when "
+                       f"not ({fmt(e.live)[:120]}) — e.g. an id list that "
+                       f"repeats or reorders poses but has as many entries "
+                       f"as there are poses is then ignored",
+                       key=f"C08.3:{cq}:{e.data['name']}:unconditional")
     # subclass delegates to base implementation with the same ids
     fsub = prog.func(f"{TRAJ}.reduce_to_ids")
     supers = [e for e in r_sub.of_kind("call")
@@ -310,6 +329,12 @@ def check(ctx):
     from ..core import import_rules
     n = import_rules(ctx, "c04", ("C04.3", "C04.4"), "C08.8")
     ctx.require(n >= 8, "C08.8: alignment-effect instances not found")
+    # "every pose remains a valid rigid-body pose" after alignment needs the
+    # reflection fix of the Umeyama step; "time cropping has its documented
+    # effect" is the inclusive mask of C11.3
+    n = import_rules(ctx, "c03", ("C03.4", "C03.7"), "C08.9")
+    n += import_rules(ctx, "c11", ("C11.3",), "C08.9")
+    ctx.require(n >= 6, "C08.9: sign-fix / crop instances not found")
 
     # constructor: the views come from the like-named arguments
     f = prog.func(f"{PATH}.__init__")
@@ -339,14 +364,35 @@ def _is_bool_param(m: Function, p: str) -> bool:
         return False
 
 
-def _indexed_by(v: T, selfp: T, attr: str, ids: T) -> bool:
+def _same_ids(t: T, ids: T):
+    """True if t is the `ids` argument (possibly normalised to an *integer*
+    index array); "float" for np.asarray(ids) without an integer dtype — an
+    empty selection then becomes a float64 array and indexing with it raises
+    IndexError instead of selecting nothing; False otherwise"""
+    if t is ids:
+        return True
+    if is_call_to(t, "builtins.list", "builtins.tuple") and \
+            len(t.args[1]) == 1 and t.args[1][0] is ids:
+        return True
+    if is_call_to(t, "numpy.asarray", "numpy.array", "numpy.asanyarray") \
+            and t.args[1] and t.args[1][0] is ids:
+        dt = dict(t.args[2]).get("dtype") or (
+            t.args[1][1] if len(t.args[1]) > 1 else None)
+        if dt is not None and (dt is tm.glob("builtins.int") or (
+                dt.op == "global" and dt.args[0].startswith("numpy.int")) or
+                (tm.is_const(dt) and str(dt.args[1]).startswith("int"))):
+            return True
+        return "float"
+    return False
+
+
+def _indexed_by(v: T, selfp: T, attr: str, ids: T):
     own = tm.attr(selfp, attr)
-    if v.op == "sub" and v.args[0] is own and v.args[1] is ids:
-        return True
+    if v.op == "sub" and v.args[0] is own:
+        return _same_ids(v.args[1], ids)
     if v.op == "call" and is_call_to(v, "numpy.take") and \
-            len(v.args[1]) >= 2 and v.args[1][0] is own and \
-            v.args[1][1] is ids:
-        return True
+            len(v.args[1]) >= 2 and v.args[1][0] is own:
+        return _same_ids(v.args[1][1], ids)
     if v.op == "comp" and len(v.args[2]) == 1 and not v.args[3]:
         it, lid = v.args[2][0]
         el = T("elem", it, lid)
